@@ -1756,6 +1756,7 @@ def thread_scenarios():
         "open-close": (False, [f"open t:{lab} 4", "sinfo @{B0}", "close @{B0}"]),
         "session-object": (True, [f"create {{S1}} 0={U(0)} 1=00 2=01 3={hx('newB')} 11=b2b2", "destroy {S1} @{B0}"]),
         "read-private": (True, ["getattr {S1} {Z} 3:64 11:64"]),
+        "open-find-close": (False, [f"open t:{lab} 6", "findinit @{B0}", "find @{B0} 100", "findfinal @{B0}", "close @{B0}"]),     # a search registers handles; closing the searching session must not take another session's object along
         "login-user": (True, [f"login {{S1}} 1 {user}", "sinfo {S1}"]),
         "login-so": (True, [f"login {{S1}} 0 {so}", "sinfo {S1}", "logout {S1}"]),
     }
